@@ -94,6 +94,36 @@ template<class T> static void k_ptr(const In4<T>& in,vf::Ctx& c){
 	glm::mat<4,3,T,glm::defaultp> n(m); auto n2=glm::make_mat4x3(glm::value_ptr(n)); if(!(n2==n)) c.fail("make_mat4x3(value_ptr(m)):round-trip-changed",n2[1][1],n[1][1]);
 	std::unique_ptr<glm::vec<3,T,glm::defaultp>> hv(new glm::vec<3,T,glm::defaultp>(in.v[0],in.v[1],in.v[2])); glm::vec<4,T,glm::defaultp> w(*hv,in.v[3]); glm::vec<2,T,glm::defaultp> h2(*hv); if(!same(w[3],in.v[3])||!same(h2[1],in.v[1])) c.fail("vec4(vec3,s)/vec2(vec3):component-wrong",w[3],in.v[3]);
 }
+// qualifier conversions into destinations that are heap objects of exactly sizeof(destination) bytes: packed <-> aligned, vectors and matrices
+// (the SIMD specialisations store whole registers; a packed 3-component destination is narrower than the register)
+#if GLM_CONFIG_ALIGNED_GENTYPES == GLM_ENABLE
+template<int L,class T> static void k_qconv_v(const In4<T>& in,vf::Ctx& c){
+	typedef glm::vec<L,T,glm::packed_highp> P; typedef glm::vec<L,T,glm::aligned_highp> A;
+	std::unique_ptr<A> a0(new A); for(int i=0;i<L;i++) (*a0)[i]=in.v[i];
+	std::unique_ptr<P> p(new P(*a0));                      // packed(aligned) constructed in place in an exactly sized block
+	std::unique_ptr<A> a(new A(*p));                       // aligned(packed): reads an exactly sized block
+	std::unique_ptr<P> p2(new P); *p2=P(*a);               // assignment through a temporary
+	std::unique_ptr<P[]> arr(new P[3]); arr[2]=P(*a0); arr[1]=P(*a); arr[0]=arr[2];   // array neighbours
+	for(int i=0;i<L;i++) if(!same((*p)[i],in.v[i])||!same((*a)[i],in.v[i])||!same((*p2)[i],in.v[i])||!same(arr[0][i],in.v[i])||!same(arr[1][i],in.v[i])) c.fail("qualifier-conversion:vec"+std::to_string(L)+":component-wrong",(*p)[i],in.v[i]);
+}
+template<int C,int R,class T> static void k_qconv_m(const In4<T>& in,vf::Ctx& c){
+	typedef glm::mat<C,R,T,glm::packed_highp> P; typedef glm::mat<C,R,T,glm::aligned_highp> A;
+	std::unique_ptr<A> a0(new A); for(int i=0;i<C;i++) for(int j=0;j<R;j++) (*a0)[i][j]=in.v[(i*R+j)&3];
+	std::unique_ptr<P> p(new P(*a0)); std::unique_ptr<A> a(new A(*p)); std::unique_ptr<P> p2(new P); *p2=P(*a);
+	for(int i=0;i<C;i++) for(int j=0;j<R;j++) if(!same((*p)[i][j],in.v[(i*R+j)&3])||!same((*a)[i][j],in.v[(i*R+j)&3])||!same((*p2)[i][j],in.v[(i*R+j)&3])) c.fail("qualifier-conversion:mat"+std::to_string(C)+"x"+std::to_string(R)+":element-wrong",(*p)[i][j],in.v[(i*R+j)&3]);
+}
+template<class T> static void k_qconv(const In4<T>& in,vf::Ctx& c){
+	k_qconv_v<1,T>(in,c); k_qconv_v<2,T>(in,c); k_qconv_v<3,T>(in,c); k_qconv_v<4,T>(in,c);
+	k_qconv_m<2,2,T>(in,c); k_qconv_m<3,3,T>(in,c); k_qconv_m<4,3,T>(in,c); k_qconv_m<2,3,T>(in,c); k_qconv_m<4,4,T>(in,c); k_qconv_m<3,2,T>(in,c);
+	c.cls("aligned-qualifiers-available");
+}
+#else
+template<class T> static void k_qconv(const In4<T>&,vf::Ctx& c){ c.cls("skipped:no-aligned-qualifiers-in-this-configuration"); }
+#endif
+VF_OP(qualifier_conv_f32, In4<float>, "ffff"){ k_qconv<float>(in,c); }
+VF_OP(qualifier_conv_f64, In4<double>, "dddd"){ k_qconv<double>(in,c); }
+VF_OP(qualifier_conv_i32, In4<i32>, "iiii"){ k_qconv<i32>(in,c); }
+VF_OP(qualifier_conv_u32, In4<u32>, "uuuu"){ k_qconv<u32>(in,c); }
 VF_OP(pointer_builders_f32, In4<float>, "ffff"){ k_ptr<float>(in,c); }
 VF_OP(pointer_builders_f64, In4<double>, "dddd"){ k_ptr<double>(in,c); }
 VF_OP(pointer_builders_i32, In4<i32>, "iiii"){ k_ptr<i32>(in,c); }
@@ -123,7 +153,7 @@ static void workload(){
 		}
 		{ InC<i32> a; InC<u32> b; InC<i64> e; InC<u64> g; for(int k=0;k<4;k++){ a.v[k]=rint_<i32>(c.rng,L32); b.v[k]=rint_<u32>(c.rng,LU32); e.v[k]=rint_<i64>(c.rng,L64); g.v[k]=rint_<u64>(c.rng,LU64); }
 			a.a=(int)(i%33); a.b=(int)c.rng.below(33-a.a); b.a=a.a; b.b=a.b; e.a=(int)(i%65); e.b=(int)c.rng.below(65-e.a); g.a=e.a; g.b=e.b; vf::run(c,counts_i32,a); vf::run(c,counts_u32,b); vf::run(c,counts_i64,e); vf::run(c,counts_u64,g); }
-		{ In4<float> pf; In4<double> pd; In4<i32> pi; for(int k=0;k<4;k++){ pf.v[k]=(float)(c.rng.range(-1000,1000)*0.25); pd.v[k]=c.rng.range(-1000,1000)*0.125; pi.v[k]=rint_<i32>(c.rng,L32); } vf::run(c,pointer_builders_f32,pf); vf::run(c,pointer_builders_f64,pd); vf::run(c,pointer_builders_i32,pi); }
+		{ In4<float> pf; In4<double> pd; In4<i32> pi; for(int k=0;k<4;k++){ pf.v[k]=(float)(c.rng.range(-1000,1000)*0.25); pd.v[k]=c.rng.range(-1000,1000)*0.125; pi.v[k]=rint_<i32>(c.rng,L32); } vf::run(c,pointer_builders_f32,pf); vf::run(c,pointer_builders_f64,pd); vf::run(c,pointer_builders_i32,pi);  vf::run(c,qualifier_conv_f32,pf); vf::run(c,qualifier_conv_f64,pd); vf::run(c,qualifier_conv_i32,pi); { In4<u32> pu; for(int k=0;k<4;k++) pu.v[k]=(u32)c.rng.next(); vf::run(c,qualifier_conv_u32,pu); } }
 		{ In4<i32> a; In4<u32> b; In4<i64> e; In4<i16> h; for(int k=0;k<4;k++){ a.v[k]=rint_<i32>(c.rng,L32); b.v[k]=rint_<u32>(c.rng,LU32); e.v[k]=rint_<i64>(c.rng,L64); h.v[k]=rint_<i16>(c.rng,L16); }
 			for(int k=2;k<4;k++){ if(a.v[k]==0) a.v[k]=3; if(b.v[k]==0) b.v[k]=5; if(e.v[k]==0) e.v[k]=-7; if(h.v[k]==0) h.v[k]=9; } for(int k=0;k<2;k++){ if(a.v[k]==std::numeric_limits<i32>::min()) a.v[k]++; if(e.v[k]==std::numeric_limits<i64>::min()) e.v[k]++; if(h.v[k]==std::numeric_limits<i16>::min()) h.v[k]++; }
 			vf::run(c,div_i32,a); vf::run(c,div_u32,b); vf::run(c,div_i64,e); vf::run(c,div_i16,h); }
